@@ -26,6 +26,7 @@ type PropDef struct {
 	MaxSim     time.Duration
 	MaxSteps   int
 	PanicRule  string // when set, a panic of a lime-go goroutine in a run is this violation
+	LivelockRule string // when set, a run that burns its step budget at one simulated instant is this violation
 	Rule       string // how cases are generated and what makes one non-trivial (for the evidence file)
 	Components string
 }
@@ -151,6 +152,12 @@ func runPlan(t *testing.T, def *PropDef, plan interface{}, tape *simrt.Tape, tie
 		maxSteps = 300000
 	}
 	ro := Execute(t, tape, tier, keepLog, maxSim, maxSteps, func(w *World) { def.Run(w, plan) })
+	if ro.Res.Stop == "step-cap" || ro.Res.Stop == "simtime-cap" {
+		// the run exhausted its budget before the scenario finished: no verdict from the scenario's own
+		// oracles (a busy loop is judged below from the scheduler's own statistics)
+		ro.Violations = nil
+		ro.Armed = false
+	}
 	if def.PanicRule != "" {
 		for _, p := range ro.Res.Panics {
 			if fn := limeFrame(p.Stack); fn != "" {
@@ -160,7 +167,39 @@ func runPlan(t *testing.T, def *PropDef, plan interface{}, tape *simrt.Tape, tie
 			}
 		}
 	}
+	if def.LivelockRule != "" && ro.Res.Livelock {
+		hot, n := "", 0
+		keys := make([]string, 0, len(ro.Res.HotSites))
+		for k := range ro.Res.HotSites {
+			keys = append(keys, k)
+		}
+		sortStrings(keys)
+		for _, k := range keys {
+			if v := ro.Res.HotSites[k]; v > n && strings.Contains(k, ".go:") && !isHarnessSite(k) {
+				hot, n = k, v
+			}
+		}
+		if hot != "" {
+			ro.Violations = append(ro.Violations, Violation{Rule: def.LivelockRule, Sig: "busy at " + siteFile(hot),
+				Detail: fmt.Sprintf("the run took %d scheduler steps at one simulated instant (no timer, no I/O wait in between): a busy loop; hottest library site %s (%d hits); run ended by %s", ro.Res.MaxSameTime, hot, n, ro.Res.Stop), Step: ro.Res.Steps})
+		}
+	}
 	return ro
+}
+
+var harnessFiles = map[string]bool{}
+
+func isHarnessSite(site string) bool {
+	f := siteFile(site)
+	return strings.HasPrefix(f, "c0") || strings.HasPrefix(f, "c1") || strings.HasPrefix(f, "c2") || f == "world.go" || f == "full.go" || f == "peer.go" || f == "srv.go" || f == "xport.go" || f == "worker.go"
+}
+
+func siteFile(site string) string {
+	s := strings.TrimPrefix(site, "start:")
+	if i := strings.Index(s, ":"); i > 0 {
+		return s[:i]
+	}
+	return s
 }
 
 // limeFrame returns the innermost lime-go function on a panic stack that did not start in
@@ -339,7 +378,29 @@ func workerSearch(t *testing.T, def *PropDef) {
 			p2, _ := decodePlan(def, pj)
 			ro2 := runPlan(t, def, p2, simrt.NewReplayTape(append([]uint32(nil), ro.Tape...)), tier, false)
 			if ro2.Res.EventHash != ro.Res.EventHash {
-				out.Nondet = append(out.Nondet, fmt.Sprintf("run %d: event log differs between two executions of the same tape (%s vs %s)", run, ro.Res.EventHash[:12], ro2.Res.EventHash[:12]))
+				msg := fmt.Sprintf("run %d: event log differs between two executions of the same tape (%s vs %s)", run, ro.Res.EventHash[:12], ro2.Res.EventHash[:12])
+				// find the first divergence with full logs
+				for try := 0; try < 6; try++ {
+					pa, _ := decodePlan(def, pj)
+					a := runPlan(t, def, pa, simrt.NewReplayTape(append([]uint32(nil), ro.Tape...)), tier, true)
+					pb, _ := decodePlan(def, pj)
+					b := runPlan(t, def, pb, simrt.NewReplayTape(append([]uint32(nil), ro.Tape...)), tier, true)
+					if a.Res.EventHash != b.Res.EventHash {
+						for i := 0; i < len(a.Res.Events) && i < len(b.Res.Events); i++ {
+							if a.Res.Events[i] != b.Res.Events[i] {
+								lo := i - 6
+								if lo < 0 {
+									lo = 0
+								}
+								msg += fmt.Sprintf("\n first divergence at event %d:\n A: %s\n B: %s\n context:\n  %s", i, a.Res.Events[i], b.Res.Events[i], strings.Join(a.Res.Events[lo:i], "\n  "))
+								break
+							}
+						}
+						msg += "\n plan: " + string(pj)
+						break
+					}
+				}
+				out.Nondet = append(out.Nondet, msg)
 			}
 		}
 		// harness trouble is never a verdict
